@@ -86,6 +86,10 @@ pub assume_specification<T> [Option::<Option<T>>::flatten] (o: Option<Option<T>>
     ensures r == (match o { Some(x) => x, None => None::<T> });
 
 
+// TRUSTED[result-unwrap-or-else]: Result::unwrap_or_else returns the Ok value, or what the closure makes of the error (std doc).
+pub assume_specification<T, E, F: FnOnce(E) -> T> [Result::<T, E>::unwrap_or_else] (r: Result<T, E>, f: F) -> (t: T)
+    requires r is Err ==> f.requires((r->Err_0,)),
+    ensures r is Ok ==> t == r->Ok_0, r is Err ==> f.ensures((r->Err_0,), t);
 // TRUSTED[bool-then-some]: bool::then_some(t) is Some(t) if the bool is true, None otherwise (std doc).
 pub assume_specification<T> [bool::then_some::<T>] (b: bool, t: T) -> (r: Option<T>)
     ensures r == (if b { Some(t) } else { None::<T> });
